@@ -8,14 +8,11 @@ NOTE_COMMON = ("Trusted base: simgen (source rewriter), simsync/simatomic (model
                "Go's testing/synctest fake clock, the harness oracles. Context switches happen only at sync/atomic/channel/go/select/"
                "sleep/cancel operations; plain-memory data races are invisible. Sampling, not proof: bounded tasks/operations per run.")
 
-CLAIMED = {
- "C16": dict(level="exploration",
-   text="Seeded search over schedules of submitters (incl. tasks that submit tasks), Shutdown + ShutdownComplete.Wait, restart cycles, PendingTasksCounter waiters and Group.WaitChildren on the real WorkerPool/Group (1-3 workers, cancel-on-shutdown on/off). Acceptance is observed through the pending counter's own subscription; oracles: at-most-once execution, accepted = run (or run+cancelled), counter back to zero, no start after shutdown completion, Submit inside a running window must be accepted, WaitChildren only returns if no task was pending at some instant of the call, every call returns at quiescence.",
-   design="5/C16"),
- "C17": dict(level="exploration",
-   text="Seeded search over lock/unlock scripts (2-4 threads, 1-3 entities) and schedules on the real StarvingMutex/DAGMutex/Counter/Stack with ghost holder sets checked at every acquisition, a stuck-thread oracle at quiescence (lost wake-ups), misuse scripts, and interval-based wait oracles. Exploration is the right level: the property quantifies over arrival orders, which the scheduler samples by the million per minute; no exhaustive enumerator is claimed.",
-   design="5/C17"),
-}
+CLAIMED = {}
+_cd = os.path.join(os.path.dirname(os.path.abspath(__file__)), "claims")
+for _f in sorted(os.listdir(_cd)):
+    if _f.endswith(".json"):
+        CLAIMED[_f[:-5]] = json.load(open(os.path.join(_cd, _f)))
 
 NA = {
  "C10": "ds.List vs container/list is sequential equivalence over operation histories: no schedule, clock, I/O, fault or second party in the statement, so deterministic simulation has nothing to own (DESIGN.md section 5/C10).",
